@@ -442,3 +442,22 @@ func (g *G) genVarySpelling(id string) *History {
 	}
 	return h
 }
+
+// genTruncUnframed: a stored response whose body had no framing of its own (delimited by the end of the
+// connection: HTTP/1.0, or what http.Transport hands over after transparent decompression, or HTTP/2 without
+// Content-Length), and a store that later returns only a prefix of the entry, cut inside the body. The cache
+// read every byte of that body before it stored it: a shorter one is a damaged entry, and the origin serves.
+func (g *G) genTruncUnframed(id string) *History {
+	h := &History{ID: id, Prop: g.prop, Class: "trunc-unframed", Backend: pick(g, "mem", "mem", "fs", "fsenc"), Logger: pick(g, "discard", "debug")}
+	url := "http://a.test/tu"
+	body := "0123456789abcdefghijklmnopqrstuvwxyz"
+	h.Ops = append(h.Ops, Op{Op: "req", AtNs: 0, Method: "GET", URL: url,
+		Replies: []Reply{{Status: 200, BodyFail: -1, Body: body, NoCL: g.chance(0.8), Proto: pick(g, "", "HTTP/1.0"),
+			Hdr: Hdr{{"Date", dateAt(0, 0)}, {"Cache-Control", "max-age=600"}}}}})
+	h.Ops = append(h.Ops, Op{Op: "req", AtNs: 10 * sec, Method: "GET", URL: url,
+		Faults:  []Fault{{Stream: "fg", Idx: 1, Kind: "trunc", Bytes: pick(g, "-1", "-3", "-5", "-12", "-20", "-30")}},
+		Replies: []Reply{{Status: 200, BodyFail: -1, Body: body, Hdr: Hdr{{"Date", dateAt(10*sec, 0)}, {"Cache-Control", "max-age=600"}}}}})
+	h.Ops = append(h.Ops, Op{Op: "req", AtNs: 20 * sec, Method: "GET", URL: url,
+		Replies: []Reply{{Status: 200, BodyFail: -1, Body: body, Hdr: Hdr{{"Date", dateAt(20*sec, 0)}, {"Cache-Control", "max-age=600"}}}}})
+	return h
+}
